@@ -901,14 +901,8 @@ def unbroadcast_f(target, f):
 
 
 def unbroadcast_einsum(x, target_meta, subscript):
-    if Ellipsis not in subscript:
-        return x
-    elif subscript[0] == Ellipsis:
-        return unbroadcast(x, target_meta, 0)
-    elif subscript[-1] == Ellipsis:
-        return unbroadcast(x, target_meta, -1)
-    else:
-        return unbroadcast(x, target_meta, subscript.index(Ellipsis))
+    broadcast_idx = subscript.index(Ellipsis) if Ellipsis in subscript else 0
+    return unbroadcast(x, target_meta, broadcast_idx)
 
 
 def balanced_eq(x, z, y):
